@@ -24,7 +24,7 @@ def run(tier, rep, work):
     open(gp, "w").write("\n".join(gen) + "\n")
     exe = C.build_harness()
     trace = work.path("trace.ndjson")
-    nfloat, nquant, ntwice = (600, 1500, 12) if quick else (6000, 20000, 60)
+    nfloat, nquant, ntwice = (600, 1500, 36) if quick else (6000, 20000, 150)
     p = C.run_harness(exe, ["kmeans", "-gen", gp, "-n", nfloat, "-quant", nquant, "-twice", ntwice, "-seed", C.seed(), "-out", trace, "-maxm", 6 if quick else 8])
     if p.returncode != 0:
         raise C.Inconclusive("kmeans driver failed: " + p.stderr[-2000:])
